@@ -64,7 +64,12 @@ func putUTF8(b []byte, s string) []byte {
 }
 
 // Encode appends the specification's encoding of v.
-func Encode(b []byte, v *Value) []byte {
+func Encode(b []byte, v *Value) []byte { return encode(b, v, 1) }
+
+// EncodeTrueAs is Encode with the Boolean true payload byte written as t (the specification: any non-zero byte is true).
+func EncodeTrueAs(b []byte, v *Value, t byte) []byte { return encode(b, v, t) }
+
+func encode(b []byte, v *Value, tb byte) []byte {
 	switch v.Kind {
 	case Number:
 		b = append(b, mNumber)
@@ -73,7 +78,7 @@ func Encode(b []byte, v *Value) []byte {
 		return append(b, t[:]...)
 	case Boolean:
 		if v.Bool {
-			return append(b, mBoolean, 1)
+			return append(b, mBoolean, tb)
 		}
 		return append(b, mBoolean, 0)
 	case String:
@@ -91,14 +96,14 @@ func Encode(b []byte, v *Value) []byte {
 		}
 		for _, p := range v.Props {
 			b = putUTF8(b, p.Key)
-			b = Encode(b, p.Val)
+			b = encode(b, p.Val, tb)
 		}
 		return append(b, 0, 0, mObjectEnd)
 	case Strict:
 		n := uint32(len(v.Items))
 		b = append(b, mStrictArray, byte(n>>24), byte(n>>16), byte(n>>8), byte(n))
 		for _, it := range v.Items {
-			b = Encode(b, it)
+			b = encode(b, it, tb)
 		}
 		return b
 	}
@@ -440,6 +445,20 @@ func genKey(r *vrand.Rand, o GenOpts, used map[string]bool) string {
 			k = genString(r, false)
 		case 3:
 			k = fmt.Sprint(r.Intn(5))
+		case 4:
+			// names that differ only by trailing NUL bytes or case: a table keyed by a padded or folded name confuses them
+			k = []string{"id", "id\x00", "id\x00\x00", "Id", "ID", "duration\x00", "a\x00b"}[r.Intn(7)]
+		case 5:
+			// names around the one-byte boundary of their length (the length prefix has two bytes) and, rarely, the longest
+			n := r.Pick(254, 255, 256, 257)
+			if o.BigStrings && r.Chance(1, 8) {
+				n = r.Pick(65534, 65535)
+			}
+			b := make([]byte, n)
+			for i := range b {
+				b[i] = byte('a' + (i+n)%26)
+			}
+			k = string(b)
 		default:
 			k = []string{"app", "tcUrl", "duration", "width", "height", "videocodecid", "audiocodecid", "level", "code", "description", "objectEncoding", "fmsVer", "capabilities", "a", "b", "c"}[r.Intn(16)]
 		}
